@@ -48,6 +48,16 @@ class VisorTarInfo(tarfile.TarInfo):
 
         return super()._proc_member(tarfile)
 
+    def _proc_pax(self, tarfile: tarfile.TarFile) -> VisorTarInfo | tarfile.TarInfo:
+        member = super()._proc_pax(tarfile)
+
+        if getattr(member, "is_visor", False) and member.offset_data:
+            # A size record in the extended header makes tarfile continue behind the (inline) file data,
+            # but the next header directly follows the header of a visor member
+            tarfile.offset = tarfile.fileobj.tell()
+
+        return member
+
 
 def VisorTarFile(*args, **kwargs) -> tarfile.TarFile:
     return tarfile.TarFile(*args, **kwargs, tarinfo=VisorTarInfo)
